@@ -19,6 +19,8 @@ func init() {
 			"registry insertions are paired with the subscription counter, TriggerCountInc with initialized.Store(true); the trigger id derives from the input hash and the headers hash; Source.Start has one call site, under a detached context, with tear-down on its error edge; " +
 			"sources call Done() after every Error()/Complete(). It does not decide that the counters return to zero for every history.",
 		Mutants: []Mutant{
+			{Name: "trigger marked initialized after the registry lock was released (the repaired defect F19)", File: resolveGo, Rule: "C13-R10", Key: "markTriggerInitialized/initialized-set-under-registry-lock",
+				Old: "\ttrig.initialized.Store(true)\n\tr.mu.Unlock()\n\tif r.reporter != nil {", New: "\tr.mu.Unlock()\n\ttrig.initialized.Store(true)\n\tif r.reporter != nil {"},
 			{Name: "registry lock released between trigger lookup and insertion (seeded change C13-12)", File: resolveGo, Rule: "C13-R9", Key: "addSubscription/insert-in-the-critical-section-of-the-lookup",
 				Old: "\tcloneCtx := add.ctx.clone(ctx)\n\ttrig = &trigger{", New: "\tr.mu.Unlock()\n\tcloneCtx := add.ctx.clone(ctx)\n\tr.mu.Lock()\n\ttrig = &trigger{"},
 			{Name: "subscription source hashes url and body only (seeded change C13-13)", File: gqldsGo, Rule: "C13-R5", Key: "HashTriggerInput/hash-covers-every-option",
@@ -57,6 +59,7 @@ func init() {
 
 func runC13(r *fw.Run) {
 	defer c13OwnTrigger(r)
+	defer c13InitializedUnderRegistryLock(r)
 	defer c13LookupInsertAtomic(r)
 	defer c13SourceHashCoversInput(r)
 	p := r.Prog
@@ -190,6 +193,17 @@ func runC13(r *fw.Run) {
 				fromRegistry := false
 				if id, ok := ast.Unparen(recv).(*ast.Ident); ok {
 					fromRegistry = fw.VarFromCall(fi, info.Uses[id], id.Pos(), "resolve", "Resolver.getTrigger", 0)
+					if !fromRegistry { // trig, ok := r.triggers[id]
+						obj := info.Uses[id]
+						ast.Inspect(fi.Decl.Body, func(m ast.Node) bool {
+							if as, isAs := m.(*ast.AssignStmt); isAs && as.Pos() < id.Pos() && len(as.Lhs) == 2 && len(as.Rhs) == 1 && fw.RootObj(info, as.Lhs[0]) == obj {
+								if ix, isIx := ast.Unparen(as.Rhs[0]).(*ast.IndexExpr); isIx && fw.IsFieldSel(info, ix.X, "resolve", "Resolver", "triggers") {
+									fromRegistry = true
+								}
+							}
+							return true
+						})
+					}
 				}
 				r.Check(fromRegistry && g.Has(st, "found-in-registry"), "C13-R4", fi.Name()+"/counts-registered-trigger", p.Pos(c.Pos()), "the trigger marked initialized (and counted) was just found in the registry",
 					"initialized.Store(true)/TriggerCountInc act on a trigger object that was not (re-)looked up in the registry: a trigger detached while Source.Start was in flight is counted although its removal already happened — the trigger count never returns to zero")
@@ -1258,4 +1272,60 @@ func reflectTag(tag, key string) string {
 		}
 	}
 	return ""
+}
+
+// c13InitializedUnderRegistryLock (R10): every removal reads trigger.initialized under Resolver.mu to decide whether the
+// trigger had been counted (TriggerCountDec). The flag is therefore set to true only with Resolver.mu held, in the critical
+// section that found the trigger still registered (read of Resolver.triggers). Set outside the lock, a removal between the
+// lookup and the store sees false, skips the decrement, and the increment that follows is never undone: the trigger gauge
+// stays above zero with no subscriber left.
+func c13InitializedUnderRegistryLock(r *fw.Run) {
+	p := r.Prog
+	r.Rule("C13-R10", "trigger.initialized is set to true only with Resolver.mu held, in the critical section that found the trigger still registered (removals read it under that lock to decide about TriggerCountDec)")
+	info := p.Pkg("resolve").TypesInfo
+	const lk = "resolve.Resolver.mu"
+	n := 0
+	for _, fi := range p.Funcs("resolve") {
+		has := false
+		fw.WalkAll(fi.Decl.Body, func(nd ast.Node) bool {
+			if c, ok := nd.(*ast.CallExpr); ok {
+				if sel, ok := ast.Unparen(c.Fun).(*ast.SelectorExpr); ok && sel.Sel.Name == "Store" && fw.IsFieldSel(info, sel.X, "resolve", "trigger", "initialized") {
+					has = true
+				}
+			}
+			return true
+		})
+		if !has {
+			continue
+		}
+		in := fw.NewInterp(fi)
+		in.H = fw.Hooks{
+			Lit: func(l *ast.FuncLit, ctx fw.LitCtx, st *fw.State) fw.LitMode { return fw.LitSkip },
+			Node: func(nd ast.Node, st *fw.State) {
+				switch x := nd.(type) {
+				case *ast.CallExpr:
+					if op, ok := fw.LockOpOf(info, x); ok {
+						fw.ApplyLockOp(op, st)
+						return
+					}
+					if sel, ok := ast.Unparen(x.Fun).(*ast.SelectorExpr); ok && sel.Sel.Name == "Store" && fw.IsFieldSel(info, sel.X, "resolve", "trigger", "initialized") && in.Final() {
+						if len(x.Args) == 1 {
+							if cv, isC := fw.ConstVal(info, x.Args[0]); isC && cv != "true" {
+								return
+							}
+						}
+						n++
+						r.Check(fw.Held(st, lk, false) && st.Must("under:"+lk+":registered"), "C13-R10", fi.Name()+"/initialized-set-under-registry-lock", p.Pos(x.Pos()), "initialized.Store(true) in "+fi.Name()+" happens under Resolver.mu after the trigger was found registered in the same critical section",
+							"the flag is set outside the critical section that looked the trigger up: a removal that runs in between reads initialized == false and skips TriggerCountDec, then the flag is set and TriggerCountInc runs — the trigger gauge never returns to zero although no subscriber is left")
+					}
+				case *ast.IndexExpr:
+					if fw.IsFieldSel(info, x.X, "resolve", "Resolver", "triggers") {
+						st.Set("under:" + lk + ":registered")
+					}
+				}
+			},
+		}
+		in.Run(nil)
+	}
+	r.Expect("C13-R10", "stores of true into trigger.initialized", n, 1)
 }
